@@ -98,6 +98,10 @@ def is_write_mode(mode_node: Optional[ast.AST]) -> Optional[bool]:
 def destructive_sinks(p: Program, f: Function) -> List[Tuple[ast.Call, ast.AST, str]]:
     """(call, path-argument, kind) for every file-system mutation in f"""
     out = []
+    try:
+        f = normalise_pathlib(p, f)      # Path(s).unlink() / .replace(d) / .rename(d) read as the os calls on s
+    except Exception:
+        pass
     for c in calls(f.node):
         name = resolve_ext(p, f, c)
         if name in ("os.remove", "os.unlink", "os.rmdir", "shutil.rmtree") and c.args:
@@ -807,3 +811,55 @@ def scenario_paths(stmts: List[ast.stmt], env: Dict[str, bool], test_oracle, eve
         return [(e, ev)]
 
     return walk(stmts, env, [])
+
+
+def normalise_pathlib(p: Program, f: Function) -> Function:
+    """Copy of f in which file operations written through a pathlib.Path of a known string are spelled with the os functions the
+    rules know: for `q = Path(s)` (bound once) or `Path(s)` used directly, `q.replace(d)` -> `os.replace(s, d)`, `q.rename(d)` ->
+    `os.rename(s, d)`, `q.unlink()` -> `os.remove(s)`, `q.exists()` -> `os.path.exists(s)`.  Same effects on the same paths."""
+    import copy
+    la = local_assignments(f.node)
+
+    def path_source(recv):
+        c = recv
+        if isinstance(recv, ast.Name):
+            defs = [d for d in la.get(recv.id, []) if d[0] == "assign"]
+            if len(defs) != 1:
+                return None
+            c = defs[0][1]
+        if isinstance(c, ast.Call) and len(c.args) == 1 and not c.keywords and resolve_ext(p, f, c) in ("pathlib.Path", "Path"):
+            return c.args[0]
+        return None
+
+    def os_call(name, args, like):
+        fn = ast.Attribute(value=ast.Name(id="os", ctx=ast.Load()), attr=name, ctx=ast.Load())
+        if name == "exists":
+            fn = ast.Attribute(value=ast.Attribute(value=ast.Name(id="os", ctx=ast.Load()), attr="path", ctx=ast.Load()), attr="exists",
+                               ctx=ast.Load())
+        new = ast.Call(func=fn, args=args, keywords=[])
+        for sub in ast.walk(new):
+            ast.copy_location(sub, like)
+        return new
+
+    class R(ast.NodeTransformer):
+        def visit_Call(self, n):
+            self.generic_visit(n)
+            if isinstance(n.func, ast.Attribute) and n.func.attr in ("replace", "rename", "unlink", "exists"):
+                src = path_source(n.func.value)
+                if src is not None:
+                    if n.func.attr in ("replace", "rename") and len(n.args) == 1:
+                        return os_call(n.func.attr, [copy.deepcopy(src), n.args[0]], n)
+                    if n.func.attr == "unlink" and not n.args:
+                        return os_call("remove", [copy.deepcopy(src)], n)
+                    if n.func.attr == "exists" and not n.args:
+                        return os_call("exists", [copy.deepcopy(src)], n)
+            return n
+    # nothing to rewrite: hand back f itself (its nodes are the ones other analyses - CFGs, dominators - are keyed on)
+    if not any(isinstance(n, ast.Call) and isinstance(n.func, ast.Attribute) and n.func.attr in ("replace", "rename", "unlink", "exists")
+               and path_source(n.func.value) is not None for n in ast.walk(f.node)):
+        return f
+    node = R().visit(copy.deepcopy(f.node))
+    ast.fix_missing_locations(node)
+    g = copy.copy(f)
+    g.node = node
+    return g
